@@ -31,13 +31,13 @@ Theorem C11_canonical_encoding_injective : forall A (c : codec A), codec_ok c ->
 Proof. exact @enc_injective. Qed.
 Print Assumptions C11_canonical_encoding_injective.
 
-Theorem C11_Address : forall addr_ok, c11_ok (c_address addr_ok).
+Theorem C11_Address : forall addr_norm, addr_norm_sound addr_norm -> c11_ok (c_address addr_norm).
 Proof. exact address_c11. Qed.
 Print Assumptions C11_Address.
 Theorem C11_Coin : c11_ok c_coin.
 Proof. exact coin_c11. Qed.
 Print Assumptions C11_Coin.
-Theorem C11_Output : forall addr_ok, c11_ok (c_output addr_ok).
+Theorem C11_Output : forall addr_norm, addr_norm_sound addr_norm -> c11_ok (c_output addr_norm).
 Proof. exact output_c11. Qed.
 Print Assumptions C11_Output.
 Theorem C11_BtcTx : c11_ok c_btctx.
@@ -64,19 +64,19 @@ Print Assumptions C11_VbkMerklePath.
 Theorem C11_PublicationData : c11_ok c_pubdata.
 Proof. exact pubdata_c11. Qed.
 Print Assumptions C11_PublicationData.
-Theorem C11_VbkTx : forall addr_ok, c11_ok (c_vbktx addr_ok).
+Theorem C11_VbkTx : forall addr_norm, addr_norm_sound addr_norm -> c11_ok (c_vbktx addr_norm).
 Proof. exact vbktx_c11. Qed.
 Print Assumptions C11_VbkTx.
-Theorem C11_VbkPopTx : forall addr_ok, c11_ok (c_vbkpoptx addr_ok).
+Theorem C11_VbkPopTx : forall addr_norm, addr_norm_sound addr_norm -> c11_ok (c_vbkpoptx addr_norm).
 Proof. exact vbkpoptx_c11. Qed.
 Print Assumptions C11_VbkPopTx.
-Theorem C11_ATV : forall addr_ok, c11_ok (c_atv addr_ok).
+Theorem C11_ATV : forall addr_norm, addr_norm_sound addr_norm -> c11_ok (c_atv addr_norm).
 Proof. exact atv_c11. Qed.
 Print Assumptions C11_ATV.
-Theorem C11_VTB : forall addr_ok, c11_ok (c_vtb addr_ok).
+Theorem C11_VTB : forall addr_norm, addr_norm_sound addr_norm -> c11_ok (c_vtb addr_norm).
 Proof. exact vtb_c11. Qed.
 Print Assumptions C11_VTB.
-Theorem C11_PopData : forall addr_ok, c11_ok (c_popdata addr_ok).
+Theorem C11_PopData : forall addr_norm, addr_norm_sound addr_norm -> c11_ok (c_popdata addr_norm).
 Proof. exact popdata_c11. Qed.
 Print Assumptions C11_PopData.
 
@@ -89,13 +89,13 @@ Print Assumptions C11_PopData.
     the full statement
        forall bs x r r', dec (c_vtb a) bs = Value x r -> dec (c_vtb a) (enc (c_vtb a) x ++ r') = Value x r'
     is FALSE at the size limits (the decoder accepts non-canonical encodings that are shorter than the canonical one). *)
-Theorem C11_full_Address : forall addr_ok, c11_full (c_address addr_ok).
+Theorem C11_full_Address : forall addr_norm, addr_norm_sound addr_norm -> c11_full (c_address addr_norm).
 Proof. exact address_full. Qed.
 Print Assumptions C11_full_Address.
 Theorem C11_full_Coin : c11_full c_coin.
 Proof. exact coin_full. Qed.
 Print Assumptions C11_full_Coin.
-Theorem C11_full_Output : forall addr_ok, c11_full (c_output addr_ok).
+Theorem C11_full_Output : forall addr_norm, addr_norm_sound addr_norm -> c11_full (c_output addr_norm).
 Proof. exact output_full. Qed.
 Print Assumptions C11_full_Output.
 Theorem C11_full_BtcTx : c11_full c_btctx.
